@@ -215,7 +215,18 @@ def guess_targets(spec):
 
 
 def gen_guess(r, target, s, N, cfg):
-    """A guess of a form the C10 statement lists, with an unambiguous shape."""
+    """A guess of a form the C10 statement lists, with an unambiguous shape.  With the knob p_zero_guess (C10 only) a
+    numeric guess is sometimes exactly zero everywhere: zero is also what a variable never given a guess starts from,
+    so 'a zero guess replaces an earlier non-zero one' is a history of its own (no draw is made when the knob is off)."""
+    g = _gen_guess(r, target, s, N, cfg)
+    pz = cfg.get("p_zero_guess", 0)
+    if pz and target != "T" and g[0] in ("num", "arr") and r.random() < pz:
+        zero = lambda v: [zero(x) for x in v] if isinstance(v, list) else 0.0
+        g = [g[0], zero(g[1])] + list(g[2:])
+    return g
+
+
+def _gen_guess(r, target, s, N, cfg):
     if s is None:  # T / t0
         return ["num", positive_value(r) if target == "T" else rnum(r, -1, 1)]
     rows = s.get("rows", 1) * s.get("cols", 1)
